@@ -77,18 +77,18 @@ func genWorld(t *kit.Tape, prop string) *worldCfg {
 	return cfg
 }
 
-type mix4 struct{ script, transfer, scoreW, scoreI int }
+type mix5 struct{ script, transfer, scoreW, scoreI, async int }
 
-func kindMix(prop string) mix4 {
+func kindMix(prop string) mix5 {
 	switch prop {
 	case "C09":
-		return mix4{6, 2, 1, 1}
+		return mix5{12, 4, 2, 2, 1}
 	case "C10":
-		return mix4{5, 2, 1, 1}
+		return mix5{10, 4, 2, 2, 1}
 	case "C15":
-		return mix4{1, 6, 2, 1}
+		return mix5{2, 12, 4, 2, 1}
 	default: // C16
-		return mix4{1, 3, 4, 3}
+		return mix5{2, 6, 8, 6, 6}
 	}
 }
 
@@ -139,7 +139,7 @@ func genBlock(t *kit.Tape, w *world, prop, profile string) []*txSpec {
 	var specs []*txSpec
 	for i := 0; i < maxTx; i++ {
 		s := &txSpec{}
-		switch t.Weighted("kind", mx.script, mx.transfer, mx.scoreW, mx.scoreI) {
+		switch t.Weighted("kind", mx.script, mx.transfer, mx.scoreW, mx.scoreI, mx.async) {
 		case 0:
 			s.kind = kScript
 			s.script = genScript(t, w)
@@ -149,9 +149,12 @@ func genBlock(t *kit.Tape, w *world, prop, profile string) []*txSpec {
 		case 2:
 			s.kind = kScore
 			genScore(t, w, s, false, prop)
-		default:
+		case 3:
 			s.kind = kScore
 			genScore(t, w, s, true, prop)
+		default:
+			s.kind = kScore
+			genAsync(t, w, s)
 		}
 		nops := 1
 		if s.kind == kScript {
@@ -159,6 +162,9 @@ func genBlock(t *kit.Tape, w *world, prop, profile string) []*txSpec {
 		}
 		hasInj := t.Permille("inj", injPermille)
 		inj := genInject(t, prop == "C10", nops)
+		if s.kind == kScript && s.script.abort {
+			hasInj = false // it returns its failed receipt before any injection point
+		}
 		if hasInj && profile != "plain" {
 			// profile "plain": no injected handler errors at all (the draws are still made, so that
 			// the tape has the same shape in both profiles)
@@ -176,7 +182,10 @@ func genScript(t *kit.Tape, w *world) *scriptSpec {
 	sc.world = []int{lockNone, lockWrite, lockRead}[t.Weighted("sworld", 7, 2, 1)]
 	sc.seed = uint64(1 + t.Choose("sseed", 1<<20))
 	ncell := len(w.cfg.scripts)
-	nops := t.Range("snops", 1, maxOps)
+	// 1..maxOps operations, or (last value) an empty program that only declares locks
+	nops := (t.Choose("snops", maxOps+1) + 1) % (maxOps + 1)
+	// fails as a transaction (failed receipt) before it accesses anything it declared
+	sc.abort = t.Permille("sabort", 120)
 	for i := 0; i < maxOps; i++ {
 		op := sop{write: t.Permille("swrite", 500), cell: t.Choose("scell", ncell)}
 		if i < nops {
@@ -202,12 +211,19 @@ func genScript(t *kit.Tape, w *world) *scriptSpec {
 			declare(op.cell, lockRead)
 		}
 	}
-	// over-declaration (locks on cells the program never touches, or stronger than needed)
-	over := t.Permille("sover", 250)
-	overCell := t.Choose("sovercell", ncell)
-	overMode := []int{lockRead, lockWrite}[t.Choose("sovermode", 2)]
-	if over {
-		declare(overCell, overMode)
+	// over-declaration: locks on cells the program never touches (or stronger than needed). A transaction
+	// that declares a write lock and commits without ever accessing the account must still hand the
+	// account over in block order.
+	for k := 0; k < 2; k++ {
+		over := t.Permille("sover", 350)
+		overCell := t.Choose("sovercell", ncell)
+		overMode := []int{lockRead, lockWrite, lockWrite}[t.Choose("sovermode", 3)]
+		if over {
+			declare(overCell, overMode)
+		}
+	}
+	if sc.abort {
+		sc.ops = nil
 	}
 	return sc
 }
@@ -293,6 +309,9 @@ func genTransfer(t *kit.Tape, w *world, s *txSpec) {
 		s.value = new(big.Int).Add(bal, big.NewInt(valover))
 	}
 	s.stepLimit = genStepLimit(t, w, minLimit, minLimit+2*cfg.steps.costCall+1000, bal, s.value)
+	// lazy: the wrapper does not touch/observe the declared accounts up front, so a transfer that fails its
+	// balance check commits without ever having accessed the recipient it write-locked
+	s.lazy = t.Permille("lazy", 350)
 	if valk == 3 {
 		// exactly at / just around what the balance affords: value + stepLimit*price == balance + d, d in -2..2
 		v := new(big.Int).Sub(bal, new(big.Int).Mul(big.NewInt(s.stepLimit), big.NewInt(cfg.steps.price)))
@@ -350,4 +369,34 @@ func genScore(t *kit.Tape, w *world, s *txSpec, isolated bool, prop string) {
 	minLimit := cfg.steps.costDefault + cfg.steps.costInput*dataLen(data)
 	comfortable := minLimit + int64(nops+2)*(cfg.steps.costCall+cfg.steps.costSet+cfg.steps.costLog+10) + 100
 	s.stepLimit = genStepLimit(t, w, minLimit, comfortable, cfg.balances[s.from], s.value)
+	s.lazy = t.Permille("lazy", 350)
+}
+
+// genAsync: a call to the harness asynchronous contract (see async_test.go).
+func genAsync(t *kit.Tape, w *world, s *txSpec) {
+	cfg := w.cfg
+	s.from = t.Choose("from", len(cfg.eoas))
+	s.to, s.toName = asyncAddr, "writer"
+	s.async = true
+	s.callee = t.Weighted("acallee", 3, 4, 2, 2, 1)
+	nops := t.Choose("sops", maxOps+1)
+	for i := 0; i < maxOps; i++ {
+		var o scoreOp
+		kinds := []byte{'s', 'a', 'g', 'e', 't', 'm'}
+		wts := []int{3, 3, 2, 3, 3, 1}
+		if s.callee == calleeRoOK || s.callee == calleeRwOK {
+			wts[5] = 0 // BTP messages only when the transaction is going to fail (no BTP network is open)
+		}
+		o.op = kinds[t.Weighted("sop", wts...)]
+		o.key = t.Choose("skey", nScoreKeys)
+		o.val = int64(1 + t.Choose("sval", 500))
+		o.to = t.Choose("sto", len(w.recips))
+		if i < nops {
+			s.prog = append(s.prog, o)
+		}
+	}
+	data := map[string]any{"method": "aw", "params": map[string]any{"p": encodeOps(s.prog), "c": calleeNames[s.callee]}}
+	minLimit := cfg.steps.costDefault + cfg.steps.costInput*dataLen(data)
+	comfortable := minLimit + int64(nops+3)*(cfg.steps.costCall+cfg.steps.costSet+cfg.steps.costLog+10) + 100
+	s.stepLimit = genStepLimit(t, w, minLimit, comfortable, cfg.balances[s.from], nil)
 }
